@@ -98,7 +98,10 @@ fn run_shape<OC: GenericConfig<D, F = F>>(s: &Value, selftest_all: bool) -> Vec<
     out.push(json!({"id": id, "shape": {"inner_degree_bits": common.degree_bits(), "layers": common.fri_params.reduction_arity_bits,
         "inner_pis": common.num_public_inputs, "lookups": !common.luts.is_empty(), "zk": common.config.zero_knowledge,
         "outer_degree_bits": outer.common.degree_bits(), "inner_ms": inner_ms, "outer_build_ms": t1.elapsed().as_millis() as u64,
-        "binding_bits": cfg.binding_bits(), "gates": outer.common.gates.len()}}));
+        "binding_bits": cfg.binding_bits(), "gates": outer.common.gates.len(),
+        "step_siblings": honest.proof.opening_proof.query_round_proofs[0].steps.iter().map(|st| st.merkle_proof.siblings.len()).collect::<Vec<_>>(),
+        "init_siblings": honest.proof.opening_proof.query_round_proofs[0].initial_trees_proof.evals_proofs[0].1.siblings.len(),
+        "rounds": honest.proof.opening_proof.query_round_proofs.len(), "pow_bits": common.config.fri_config.proof_of_work_bits}}));
     let nch = common.config.num_challenges;
     let mut sampled = 0usize;
     let mut unsat_sampled = 0usize;
@@ -128,13 +131,19 @@ fn run_shape<OC: GenericConfig<D, F = F>>(s: &Value, selftest_all: bool) -> Vec<
             let bits = common.config.fri_config.proof_of_work_bits;
             let zeros = if c == "pow_short1" { bits.wrapping_sub(1) } else { bits };
             if bits >= 1 && bits <= 10 && !common.config.zero_knowledge {
-                if let Some(w) = find_pow_witness(&honest, &own_vd, &common, zeros, 6000, &mut r) {
+                let found = find_pow_witness(&honest, &own_vd, &common, zeros, 6000, &mut r);
+                if found.is_none() {
+                    out.push(json!({"id": id, "class": class, "note": "no witness found", "honest_response_zeros": pow_response(&honest, &own_vd, &common).map(|x| x.leading_zeros())}));
+                }
+                if let Some(w) = found {
                     let mut k = plonky2::verif_knobs::Knobs::default();
                     k.pow_witness = Some(w);
                     if let Ok(p) = inner.prove(Some(k)) {
                         let got = pow_response(&p, &own_vd, &common).map(|x| x.leading_zeros());
                         if got == Some(zeros) {
                             cases.push((p, own_vd.clone(), json!({"pow_witness": w, "leading_zeros": zeros, "pow_bits": bits})));
+                        } else {
+                            out.push(json!({"id": id, "class": class, "note": "the re-proved transcript differs", "got": got, "want": zeros}));
                         }
                     }
                 }
